@@ -332,6 +332,9 @@ def oracle(A, approx=False):
                 kind = 'identity-adjoint-is-inverse'
             elif nd and c0 != 0 and np.all(np.abs(BA - c0 * np.eye(nd)) <= 1e-9 * abs(c0)):
                 kind = 'identity-adjoint-is-scaled-inverse'
+                if np.all(np.abs(FB - FA.T) <= 1e-9 * mA):
+                    # a scaled-orthogonal matrix: the returned operator is ALSO the plain transpose
+                    kind += '+plain-transpose'
             elif np.all(np.abs(FB - FA.T) <= 1e-9 * mA):
                 kind = 'identity-adjoint-is-plain-transpose'
         if kind == 'identity' and len(bad) > 1 and float(rhs) != 0:
